@@ -183,7 +183,9 @@ func doBind(sc *Collection, originalInvokeF *provider, originalInitF *provider, 
 		fm := funcs[i]
 		fm.vmapCount = vCount
 		addToVmap(fm, inputParams, downVmap, fm.downRmap, &vCount)
-		addToVmap(fm, returnParams, upVmap, fm.upRmap, &vCount)
+		// as for the static outputs above: returned values are stored under
+		// their own types, upRmap is about where the received values come from
+		addToVmap(fm, returnParams, upVmap, nil, &vCount)
 		fm.mustZeroIfInnerNotCalled = vmapMapped(upVmap)
 	}
 
